@@ -279,6 +279,11 @@ class Probe:
                 except Exception:
                     continue
                 self.must_reject("exactly-one-group-none-accepted", "kwargs", lambda: cls(*args, **kwargs), "+".join(group))
+                # ... nor is a member that is present but EMPTY one of the group (an empty string is stored as 'no value')
+                for g in group:
+                    if ref_decl.kind_of(d[g]) == "elem":
+                        ke = dict(kwargs, **{g: ""})
+                        self.must_reject("exactly-one-group-none-accepted", "kwargs", lambda ke=ke: cls(*args, **ke), f"{g}=''")
                 # etree: strip the members from a valid tree
                 try:
                     a0, k0 = self.base(force=[group[0]], exclude=[x for x in related if x != group[0]])
@@ -365,6 +370,47 @@ class Probe:
             except Exception:
                 self.ctx.count("base_failed")
 
+    def order_across_list_runs(self):
+        """A class whose repeated children form two runs separated by plain children: a member of the later run, a member of the
+        earlier run, then a plain child that belongs between the runs - the plain child is out of sequence."""
+        cls, d = self.cls, self.d
+        runs = instances.list_runs(cls)
+        if len(set(runs.values())) < 2:
+            return
+        keys = list(d)
+        lists = [k for k in keys if k in runs]
+        for lo in lists:
+            for hi in lists:
+                if runs[hi] <= runs[lo]:
+                    continue
+                between = [k for k in keys[keys.index(lo) + 1: keys.index(hi)] if ref_decl.kind_of(d[k]) in ("elem", "sub")]
+                if not between:
+                    continue
+                mid = between[0]
+                try:
+                    args, kwargs = self.base(force=[lo, hi, mid])
+                    elem = self.elem_of(args, kwargs)
+                    tl, th, tm = self.tag(lo), self.tag(hi), self.tag(mid)
+                    kids = list(elem)
+                    el = next(c for c in kids if c.tag == tl)
+                    eh = next(c for c in kids if c.tag == th)
+                    em = next(c for c in kids if c.tag == tm)
+                except Exception:
+                    self.ctx.count("base_failed")
+                    continue
+                e2 = copy.deepcopy(elem)
+                for c in list(e2):
+                    if c.tag in (tl, th, tm):
+                        e2.remove(c)
+                first = next((i for i, c in enumerate(elem) if c.tag in (tl, th, tm)), len(e2))
+                pos = min(first, len(e2))
+                for c in (copy.deepcopy(eh), copy.deepcopy(el), copy.deepcopy(em)):
+                    e2.insert(pos, c)
+                    pos += 1
+                self.ctx.count("order_across_list_runs_probed")
+                self.must_reject("out-of-order-accepted", "etree", lambda: self.from_etree(e2), f"{hi},{lo},{mid}")
+                return
+
     def list_members(self):
         from ofxtools.models.base import Aggregate, ElementList
 
@@ -407,6 +453,15 @@ class Probe:
             if t is not None and ref_decl.kind_of(t) == "listelem":
                 conv = t.converter
                 from ofxtools import Types as T
+                # 'no value' is no list element (there is no such thing as an absent repeated element that is nevertheless a member)
+                for nothing in (None, ""):
+                    self.must_reject("empty-list-element-accepted", "kwargs", lambda n=nothing: cls(*(list(args) + [n]), **kwargs), f"{lists[0]}={nothing!r}")
+                try:
+                    e_empty = self.elem_of(*self.base(force=[lists[0]]))
+                    for nothing in ("", None):
+                        self.must_reject("empty-list-element-accepted", "etree", lambda n=nothing: self.from_etree(self.with_text(e_empty, self.tag(lists[0]), n)), f"{lists[0]}={nothing!r}")
+                except Exception:
+                    self.ctx.count("base_failed")
                 bad = "ZZNOTATOKEN" if isinstance(conv, T.OneOf) else ("x" * (conv.length + 1) if isinstance(conv, T.String) and conv.length else ("abc" if isinstance(conv, T.Integer) else None))
                 if bad is not None:
                     self.must_reject("invalid-list-element-accepted", "kwargs", lambda: cls(*(list(args) + [bad]), **kwargs), lists[0])
@@ -448,6 +503,7 @@ def run_class(ctx, name, cls, seedstr):
     p.per_child()
     p.groups()
     p.order_and_duplicates()
+    p.order_across_list_runs()
     p.list_members()
 
 
